@@ -55,6 +55,9 @@ def make_readers(mfun):
     for rn in READERS:
         def mk(rn):
             class R(object):
+                def __init__(self, *a, **k):
+                    pass
+
                 @classmethod
                 def isMine(cls, path, *a, **k):
                     return mfun(rn, os.path.basename(path))
@@ -117,6 +120,14 @@ class Detect(Obligation):
         # count as history)
         mod._readers[:] = reg0
         for p in hist:
+            if isinstance(p, tuple) and p[0] == 'openfmt':
+                # ('openfmt', path, k): pncopen with the format named
+                try:
+                    mod.pncopen(os.path.join(d, p[1]), format=base[p[2]][0])
+                except Exception:
+                    pass
+                regs_ok = regs_ok and list(mod._readers) == reg0
+                continue
             if isinstance(p, tuple):
                 # ('register', k): registering reader k again, same name and
                 # class -- the set of registered readers does not change
@@ -259,6 +270,58 @@ class ReRegister(Detect):
             self._hist = None
 
 
+class OpenNamed(ReRegister):
+    """an earlier pncopen(path, format=name) leaves the auto-detection of
+    every probe as it was"""
+
+    def __init__(self, probe):
+        Detect.__init__(self, 1, probe)
+        self.name = 'detect-after-named-open[probe=%s]' % probe
+        self.bounds = {'readers': len(READERS), 'paths': POOL,
+                       'history': 'one open of any pool file with any '
+                                  'reader named'}
+
+    def sym(self, ctx, h):
+        sp = self.space()
+        mod = sp.twin('PseudoNetCDF._getreader')
+        M = {}
+
+        def mfun(rn, base):
+            key = 'M_%s_%s' % (rn, base.replace('.', '_'))
+            if key not in M:
+                M[key] = ctx.bool(key)
+            return M[key]
+        for rn in READERS:
+            for p in POOL:
+                mfun(rn, p)
+        readers = make_readers(mfun)
+        k = ctx.int('k', 0, len(READERS) - 1)
+        hp = ctx.int('h0', 0, len(POOL) - 1)
+        pidx = ctx.int('probe', 0, len(POOL) - 1)
+        ctx.assume(pidx.e == self.pin_probe, check=False)
+        hist = [('openfmt', POOL[int(hp)], int(k))]
+        probe = POOL[int(pidx)]
+        import warnings
+        with warnings.catch_warnings():
+            warnings.simplefilter('ignore')
+            pristine, after, again, regs_ok = self._run(mod, readers, hist,
+                                                        probe)
+        h.observe('pristine', pristine)
+        h.observe('after', after)
+        h.claim('selection-independent-of-history',
+                z3.BoolVal(pristine == after))
+        h.claim('selection-repeatable', z3.BoolVal(after == again))
+        h.claim('registry-unchanged-by-opens', z3.BoolVal(regs_ok))
+
+    def real(self, inputs):
+        self._hist = [('openfmt', POOL[int(frac_of(inputs.get('h0', 0)))],
+                       int(frac_of(inputs.get('k', 0))))]
+        try:
+            return Detect.real(self, inputs)
+        finally:
+            self._hist = None
+
+
 def obligations(tier):
     obs = []
     n = len(POOL)
@@ -270,4 +333,5 @@ def obligations(tier):
                 obs.append(Detect(3, p, f))
     for p in range(n):
         obs.append(ReRegister(p))
+        obs.append(OpenNamed(p))
     return obs
